@@ -62,7 +62,8 @@ def normalise(model, lang):
     atts = {}
     d = model._to_dict()
     for tid, t in d['attackers'].items():
-        atts[int(tid)] = {(int(aid), st) for aid, e in t['entry_points'].items() for st in e['attack_steps']}
+        atts[int(tid)] = {(int(aid), st) for aid, e in t['entry_points'].items() for st in e['attack_steps']} | \
+            {(int(aid), None) for aid, e in t['entry_points'].items() if not e['attack_steps']}       # an entry point without steps
     return assets, links, atts
 
 
@@ -77,7 +78,8 @@ def normalise_abstract(lang, am):
         for li in l['left']:
             for ri in l['right']:
                 links.add((lang.assoc_class_name(l['assoc']), li, ri))
-    atts = {t['id']: {(aid, s) for aid, st in t['entry_points'] for s in st} for t in am.attackers}
+    atts = {t['id']: {(aid, s) for aid, st in t['entry_points'] for s in st} | {(aid, None) for aid, st in t['entry_points'] if not st}
+            for t in am.attackers}
     return assets, links, atts
 
 
@@ -204,7 +206,9 @@ def _check_case(case, res, count=True):
                 return ('securicad:returned-none', 'load_model_from_scad_archive returned None for a model expressible in the format')
             if count:
                 res.count('loader:scad')
-            f = diff('securicad', normalise(m, lang), native)
+            # (an entry point without steps has no expression in the .eom format)
+            native_s = (native[0], native[1], {i: {e for e in v if e[1] is not None} for i, v in native[2].items()})
+            f = diff('securicad', normalise(m, lang), native_s)
             if f:
                 return f
             if case.get('regenerate'):
@@ -219,7 +223,7 @@ def _check_case(case, res, count=True):
                             'after lang_graph.regenerate_graph() loading the same files again raised %r' % (exc,))
                 if count:
                     res.count('class:loaded-again-after-regenerate_graph')
-                f = (diff('securicad', normalise(m, lang), native) if m is not None else ('securicad:returned-none', 'None after regenerate')) or \
+                f = (diff('securicad', normalise(m, lang), native_s) if m is not None else ('securicad:returned-none', 'None after regenerate')) or \
                     diff('updater', normalise(m9, lang), native)
                 if f:
                     return (f[0] + ':after-regenerate', 'after lang_graph.regenerate_graph(): ' + f[1])
@@ -253,6 +257,10 @@ def gen_case18(rng, cache):
             steps = list(lang.steps(a['type']))
             if steps:
                 eps[a['id']] = rng.sample(steps, min(len(steps), rng.randint(1, 3)))
+        if rng.random() < 0.25:
+            rest = [a for a in am.assets if a['id'] not in eps]
+            if rest:
+                eps[rng.choice(rest)['id']] = []            # an entry point that names no step (yet)
         t['entry_points'] = [(k, v) for k, v in eps.items()]
     return {'spec': s, 'amodel': am.to_json(), 'seed': rng.randrange(10 ** 9), 'dup_name': rng.random() < 0.2, 'regenerate': rng.random() < 0.3}
 
